@@ -148,6 +148,27 @@ def validation_request(rec, sc, D, path, seed, extra_assume=()):
     return True
 
 
+def z3_feasible_region(problem, prefix='x'):
+    """the feasible region of a CONCRETE problem observation (numbers produced by the unshimmed code) as z3 constraints over fresh reals;
+    used by replays that have to decide 'no feasible point has ...' exactly.  Returns (xs, constraints)."""
+    import z3
+    from fractions import Fraction
+    rv = lambda v: z3.RealVal(str(Fraction(float(v)).limit_denominator(10 ** 9)))
+    n = len(problem['l'])
+    xs = [z3.Real('%s%d' % (prefix, i)) for i in range(n)]
+    cons = []
+    for i in range(n):
+        cons += [xs[i] >= rv(problem['l'][i]), xs[i] <= rv(problem['u'][i])]
+    A, b, ct = problem['A'], problem['b'], problem['cType']
+    for r in range(len(b)):
+        terms = [rv(A[r][j]) * xs[j] for j in range(n) if A[r][j] != 0]
+        lhs = z3.Sum(terms) if terms else z3.RealVal(0)
+        cons.append(lhs <= rv(b[r]) if ct[r] == 'U' else (lhs >= rv(b[r]) if ct[r] == 'L' else lhs == rv(b[r])))
+    for i in sorted({m['index'] for m in problem['mapping'] if m.get('bool')}):
+        cons.append(z3.Or(xs[i] == 0, xs[i] == 1))
+    return xs, cons
+
+
 def feasibility_residual(problem, x, tol=1e-6):
     """max violation of bounds/rows of a concrete problem observation by x"""
     worst = 0.0
